@@ -22,6 +22,7 @@ from liquid2.builtin import parse_primitive
 from liquid2.builtin import parse_string_or_identifier
 from liquid2.builtin import parse_string_or_path
 from liquid2.exceptions import LiquidSyntaxError
+from liquid2.exceptions import LiquidValueError
 from liquid2.exceptions import TemplateNotFoundError
 
 if TYPE_CHECKING:
@@ -68,13 +69,20 @@ class IncludeNode(Node):
             f"{self.name}{var}{args} {self.token.wc[1]}%}}"
         )
 
+    def _name(self, name: object) -> str:
+        try:
+            return str(name)
+        except ValueError as err:
+            # Not every object can be converted to a string. A very long integer, say.
+            raise LiquidValueError(str(err), token=self.name.token) from err
+
     def render_to_output(self, context: RenderContext, buffer: TextIO) -> int:
         """Render the node to the output buffer."""
         name = self.name.evaluate(context)
 
         try:
             template = context.env.get_template(
-                str(name), context=context, tag=self.tag
+                self._name(name), context=context, tag=self.tag
             )
         except TemplateNotFoundError as err:
             err.token = self.name.token
@@ -123,7 +131,7 @@ class IncludeNode(Node):
 
         try:
             template = await context.env.get_template_async(
-                str(name), context=context, tag=self.tag
+                self._name(name), context=context, tag=self.tag
             )
         except TemplateNotFoundError as err:
             err.token = self.name.token
@@ -176,7 +184,7 @@ class IncludeNode(Node):
             name = self.name.evaluate(static_context)
             try:
                 template = static_context.env.get_template(
-                    str(name), context=static_context, tag=self.tag
+                    self._name(name), context=static_context, tag=self.tag
                 )
                 yield from template.nodes
             except TemplateNotFoundError as err:
@@ -192,7 +200,7 @@ class IncludeNode(Node):
             name = await self.name.evaluate_async(static_context)
             try:
                 template = await static_context.env.get_template_async(
-                    str(name), context=static_context, tag=self.tag
+                    self._name(name), context=static_context, tag=self.tag
                 )
                 return template.nodes
             except TemplateNotFoundError as err:
